@@ -1,6 +1,7 @@
 """C13 — merging and tabulating results. Model: lean/EvoModel/Model/ResultMerge.lean."""
 import contextlib
 import copy
+import itertools
 import csv
 import io
 import json
@@ -28,7 +29,8 @@ RULE = ("case kinds: merge (0..8 results; statistics and arrays under 1..5 keys;
         "key / empty; dict insertion orders permuted per result; one statistic or array key differing in one result; dyadic "
         "grid values compared exactly, random values within a few ulp of the exact rational mean; results holding one ndarray object "
         "under several keys or views of one base array under several keys, at position 0 and elsewhere, float64 and int64 "
-        "arrays; inputs snapshotted before "
+        "arrays, strided / read-only arrays, structured array lengths up to 17, the same Result object at two positions, every "
+        "order of 3 results, each list merged twice; inputs snapshotted before "
         "and after) compared with ResultMerge.mergeResults (structure: key order, lengths, info exactly); table (1..5 result "
         "zips written by main_ape.ape / main_rpe.rpe + file_interface.save_res_file, then evo.main_res.run in-process with "
         "--save_table and optionally --merge / --use_filenames; CSV parsed back, zip members read independently with "
@@ -51,7 +53,7 @@ def gen_merge(r, n=None, corpus=None):
     skeys = r.sample(STAT_POOL, r.randint(1, 5))
     akeys = r.sample(ARR_POOL, r.randint(0, 4))
     mode = r.choice(["equal", "equal", "unequal", "unequal", "empty", "one-differs"])
-    base_len = {k: r.randint(0 if mode == "empty" else 1, 6) for k in akeys}
+    base_len = {k: r.choice([0, 1, 2, 3, 4, 5, 6] if mode == "empty" else [1, 1, 2, 2, 3, 3, 4, 5, 6, 7, 8, 9, 15, 16, 17]) for k in akeys}
     odd_result = r.randrange(n)
     odd_key = r.choice(akeys) if akeys else None
     permute = r.random() < 0.5
@@ -77,6 +79,8 @@ def gen_merge(r, n=None, corpus=None):
         res = {"info": {"title": f"t{i}", "est_name": f"dir{i}/est{i}.txt", "label": "APE (m)"},
                "stats": [[k, gen_value(r, grid)] for k in sk],
                "arrays": [[k, [gen_value(r, grid) for _ in range(lens[k])]] for k in ak]}
+        if r.random() < 0.15:
+            res["flavour"] = r.choice(["strided", "readonly"])
         if r.random() < 0.15:
             res["dtype"] = "int"
             res["arrays"] = [[k, [float(r.randint(-64, 64)) for _ in a]] for k, a in res["arrays"]]
@@ -116,11 +120,11 @@ def gen_filespec(r, tag):
     return {"seed": r.randrange(2 ** 31), "n": r.randint(3, 9), "metric": r.choice(["ape", "ape", "rpe"]),
             "rel": r.choice(["translation_part", "translation_part", "rotation_angle_deg", "full_transformation"]),
             "align": r.random() < 0.1,
-            "est_name": r.choice([f"est{tag}", f"runs/{tag}/est.txt", f"d{tag}/traj.tum", "same/est.txt", "estimate"])}
+            "est_name": r.choice([f"est{tag}", f"runs/{tag}/est.txt", f"d{tag}/traj.tum", f"{tag}.tum", "same/est.txt", "estimate", "b.tum", "1e3", "-1", "est \u00fc\u4e2d", " trailing ", "dir/", "a\\b"])}
 
 
 def spell(name, spelling):
-    return {"rel": name, "dot": "./" + name, "abs": "<ABS>/" + name, "path": name}[spelling]
+    return {"rel": name, "dot": "./" + name, "updir": "sub/../" + name, "abs": "<ABS>/" + name, "path": name}[spelling]
 
 
 def gen_history(r, corpus=None):
@@ -141,7 +145,7 @@ def gen_history(r, corpus=None):
         via = "run" if corpus else r.choice(["run", "run", "df", "load"])
         merge = (not corpus) and r.random() < 0.35
         uf = (not corpus) and r.random() < 0.3
-        spelling = "rel" if corpus else r.choice(["rel", "rel", "dot", "abs"] + (["path"] if via == "load" else []))
+        spelling = "rel" if corpus else r.choice(["rel", "rel", "dot", "updir", "abs"] + (["path"] if via == "load" else []))
         labels = [spell(n, spelling) if uf else os.path.basename(current[str(i)]["est_name"]) for i, n in enumerate(names)]
         if via == "df" and not merge and len(set(labels)) != len(labels):
             via = "run"            # duplicate labels are judged by evo_res itself only
@@ -179,6 +183,19 @@ def gen_cases(ctx):
         {"info": {}, "stats": [["rmse", 3.0]], "arrays": [["b", [5.0, 8.0]], ["a", [3.0, 4.0]]]}]}
     for _ in range(3000 if not th else 40000):
         yield gen_merge(r)
+    for _ in range(150 if not th else 2000):       # the same Result object at two positions of the list
+        c = gen_merge(r, n=r.randint(2, 6))
+        i, j = sorted(r.sample(range(len(c["results"])), 2))
+        if r.random() < 0.5:
+            i, j = j, i
+        c["results"][j] = copy.deepcopy(c["results"][i])
+        c["same_object"] = [[i, j]]
+        yield c
+    for _ in range(40 if not th else 400):          # >= 3 results in every order
+        c = gen_merge(r, n=r.choice([3, 3, 4]))
+        perms = list(itertools.permutations(range(len(c["results"]))))
+        for pm in (perms if len(perms) <= 6 else r.sample(perms, 6)):
+            yield dict(c, results=[copy.deepcopy(c["results"][k]) for k in pm], perm=list(pm))
     for _ in range(150 if not th else 2000):
         nf = r.randint(1, 5)
         files = []
@@ -186,8 +203,10 @@ def gen_cases(ctx):
             files.append({"seed": r.randrange(2 ** 31), "n": r.randint(3, 9), "metric": r.choice(["ape", "ape", "rpe"]),
                           "rel": r.choice(["translation_part", "translation_part", "rotation_angle_deg", "full_transformation"]),
                           "align": r.random() < 0.15,
-                          "est_name": r.choice([f"est{i}", f"runs/{i}/est.txt", f"d{i}/traj.tum", "same/est.txt", "estimate"]),
+                          "est_name": r.choice([f"est{i}", f"runs/{i}/est.txt", f"d{i}/traj.tum", f"{i}.tum", "same/est.txt", "estimate", "b.tum", "1e3", "-1", "est \u00fc\u4e2d", " trailing ", "dir/", "a\\b"]),
                           "file": r.choice([f"r{i}.zip", f"sub{i}/res.zip"])})
+        if r.random() < 0.12:
+            files.append(dict(r.choice(files)))        # the same file named twice on the command line
         yield {"kind": "table", "files": files, "merge": r.random() < 0.4, "use_filenames": r.random() < 0.35,
                "ignore_title": r.random() < 0.5}
     yield gen_history(r, corpus="C13-3")
@@ -229,7 +248,16 @@ def build_result(d):
             off, ln = al["slices"][k]
             if [float(x) for x in base[off:off + ln]] == [float(x) for x in a]:
                 arr = base[off:off + ln]           # a view of the common base array
-        res.add_np_array(k, arr if arr is not None else np.array(a, dtype=dt))
+        if arr is None:
+            if d.get("flavour") == "strided":
+                basearr = np.full(2 * len(a) + 1, -7, dtype=dt)
+                basearr[1::2] = a
+                arr = basearr[1::2]
+            else:
+                arr = np.array(a, dtype=dt)
+                if d.get("flavour") == "readonly":
+                    arr.setflags(write=False)
+        res.add_np_array(k, arr)
     return res
 
 
@@ -246,6 +274,8 @@ def bits(res):
 def impl_merge(case):
     from evo.core import result
     rs = [build_result(d) for d in case["results"]]
+    for i, j in case.get("same_object", []):
+        rs[j] = rs[i]
     before = [bits(r_) for r_ in rs]
     arrays_before = [dict(r_.np_arrays) for r_ in rs]
     out = {}
@@ -262,6 +292,13 @@ def impl_merge(case):
             out["error"] = "E_NORESULTS" if "no results" in str(e) else "E_VALUE:" + str(e)[:60]
         except Exception as e:  # anything else is a crash of merge_results, judged by the oracle
             out["error"] = "E_CRASH:" + type(e).__name__ + ":" + str(e)[:60]
+        # the same call once more: the outcome may not depend on what an earlier call left behind
+        try:
+            second = view(result.merge_results(rs))
+        except Exception as e:  # noqa: BLE001
+            second = "raised " + type(e).__name__
+        first = out.get("merged", "raised")
+        out["second_call_same"] = (second == first) if "merged" in out else (isinstance(second, str) and second.startswith("raised"))
     out["inputs_unchanged"] = [bits(r_) for r_ in rs] == before and all(
         list(r_.np_arrays.keys()) == list(ab.keys()) and all(r_.np_arrays[k] is ab[k] for k in ab) for r_, ab in zip(rs, arrays_before))
     return out
@@ -279,6 +316,14 @@ def make_traj(seed, n):
     q2 = np.column_stack([np.cos(ang2 / 2), np.zeros(n), np.zeros(n), np.sin(ang2 / 2)])
     est = PoseTrajectory3D(positions_xyz=xyz2, orientations_quat_wxyz=q2, timestamps=np.arange(n) * 0.1 + 100.0)
     return ref, est
+
+
+def num(c):
+    """a CSV cell as a number; anything else stays text (and then differs from every expected statistic)"""
+    try:
+        return float(c)
+    except ValueError:
+        return c
 
 
 def read_zip(path):
@@ -341,7 +386,7 @@ def impl_table(case):
         if os.path.exists("table.csv"):
             rows = list(csv.reader(open("table.csv", newline="")))
             header = rows[0][1:]
-            out["table"] = [[row[0], [[h, float(c)] for h, c in zip(header, row[1:]) if c != ""]] for row in rows[1:]]
+            out["table"] = [[row[0], [[h, num(c)] for h, c in zip(header, row[1:]) if c != ""]] for row in rows[1:]]
             out["raw"] = open("table.csv").read()[:2000]
         else:
             out["table"] = None
@@ -386,6 +431,7 @@ def impl_history(case):
     out = {"steps": []}
     try:
         os.chdir(d)
+        os.makedirs("sub", exist_ok=True)
         for step in case["steps"]:
             so = {}
             with quiet():
@@ -408,7 +454,7 @@ def impl_history(case):
                         if os.path.exists("table.csv"):
                             rows = list(csv.reader(open("table.csv", newline="")))
                             header = rows[0][1:]
-                            so["table"] = [[row[0], [[h, float(c)] for h, c in zip(header, row[1:]) if c != ""]] for row in rows[1:]]
+                            so["table"] = [[row[0], [[h, num(c)] for h, c in zip(header, row[1:]) if c != ""]] for row in rows[1:]]
                     elif step["via"] == "df":
                         so["table"] = df_rows(pandas_bridge.load_results_as_dataframe(paths, step["use_filenames"], step["merge"]))
                     else:
@@ -416,8 +462,12 @@ def impl_history(case):
                         for n, pth in zip(case["names"], paths):
                             other = os.path.join(d, n) if step["spelling"] != "abs" else n
                             first = pathlib.Path(pth) if step["spelling"] == "path" else pth
-                            for q in (first, other):
-                                r_ = file_interface.load_res_file(q)
+                            for q in (first, other, "handle"):
+                                if q == "handle":
+                                    with open(n, "rb") as fh:
+                                        r_ = file_interface.load_res_file(fh)
+                                else:
+                                    r_ = file_interface.load_res_file(q)
                                 loads.append({"info": {k: str(v) for k, v in r_.info.items()},
                                               "stats": [[k, float(v)] for k, v in r_.stats.items()],
                                               "arrays": sorted([k, [float(x) for x in np.asarray(a, dtype=float).ravel()]]
@@ -548,6 +598,14 @@ def judge_merge(ctx, case, impl, outs):
     # ---------------- oracle (property statement)
     if not impl["inputs_unchanged"]:
         ctx.fail(case, "inputs-unmodified", "merge_results changed an input result")
+    if not impl.get("second_call_same", True):
+        ctx.fail(case, "second-call-same-result", "merging the same list again gave a different outcome")
+    if case.get("same_object"):
+        ctx.count("dist", "merge:same-object-twice")
+    if case.get("perm"):
+        ctx.count("dist", "merge:permutation-of-%d" % n)
+    if any(d.get("flavour") for d in rs):
+        ctx.count("dist", "merge:strided/readonly-arrays")
     if n == 0:
         ctx.record(case, False)
         return
@@ -722,12 +780,12 @@ def judge_history(ctx, case, impl, outs):
         ctx.count("branch", "history-via-" + step["via"] + ("-after-overwrite" if overwritten else ""))
         ctx.count("dist", "history:spelling=" + step["spelling"])
         if step["via"] == "load":
-            want = [{"info": dd["info"], "stats": dd["stats"], "arrays": sorted(dd["arrays"])} for dd in so["files"] for _ in (0, 1)]
+            want = [{"info": dd["info"], "stats": dd["stats"], "arrays": sorted(dd["arrays"])} for dd in so["files"] for _ in (0, 1, 2)]
             if so["status"] != "ok":
                 ctx.fail(case, "load-returns-file-content", f"step {k}: load_res_file failed: {so['status']}", {"history": True})
             elif so["loads"] != want:
                 bad = next(i for i, (a, b) in enumerate(zip(so["loads"], want)) if a != b)
-                ctx.fail(case, "load-returns-file-content", f"step {k}: load_res_file #{bad} of {case['names'][bad // 2]} returned "
+                ctx.fail(case, "load-returns-file-content", f"step {k}: load_res_file #{bad} of {case['names'][bad // 3]} returned "
                          f"{so['loads'][bad]['stats'][:2]}, the file holds {want[bad]['stats'][:2]}", {"history": True})
             if not so["inputs_unchanged"]:
                 ctx.fail(case, "inputs-unmodified", f"step {k}: a result file was changed by load_res_file", {"history": True})
